@@ -21,7 +21,7 @@ pub static SPEC: PropSpec = PropSpec {
     case_cpu_s: 120,
     shards: 0,
     run,
-    floors: &[("evaluations", 200_000, 1_500_000), ("programs_run", 40, 300), ("out_of_range_literals_rejected", 30, 60), ("div_zero_failures_checked", 30, 30), ("float_checks", 500, 5_000), ("compound_evaluations", 30_000, 400_000)],
+    floors: &[("evaluations", 200_000, 1_500_000), ("programs_run", 40, 300), ("out_of_range_literals_rejected", 30, 60), ("div_zero_failures_checked", 30, 30), ("float_checks", 500, 5_000), ("compound_evaluations", 30_000, 400_000), ("out_of_range_positions_rejected", 200, 200)],
     finish: None,
 };
 
@@ -507,6 +507,42 @@ fn literal_spellings(case: &mut Case, t: IntTy) {
                 Err(p) => case.inconclusive(format!("compiler panic at {} (a C04 event)", p.site)),
             }
             case.count("evaluations", 1);
+            // the same out-of-range spelling in the other positions a literal can stand in, typed directly or only
+            // through inference (under a generic constructor, against a generic call's result, against an
+            // un-annotated closure parameter, inside a tuple pattern): each must be rejected
+            if *v - t.max_val() <= 3 {
+                let zero = format!("0{}", suf);
+                let ty = t.name();
+                let positions: [(&str, String); 11] = [
+                    ("pattern-typed-scrutinee", format!("fn main() -> unit {{\n    let z: {ty} = {zero};\n    let _ = match z {{ {l} => 1, _ => 0 }};\n    ()\n}}\n", ty = ty, zero = zero, l = spelled)),
+                    ("pattern-under-generic-constructor", format!("enum Opt[T] {{ Som(T), Non }}\nfn main() -> unit {{\n    let o = Opt::Som({zero});\n    let _ = match o {{ Opt::Som({l}) => 1, _ => 0 }};\n    ()\n}}\n", zero = zero, l = spelled)),
+                    ("pattern-against-generic-call", format!("fn id[T](x: T) -> T {{ x }}\nfn main() -> unit {{\n    let _ = match id({zero}) {{ {l} => 1, _ => 0 }};\n    ()\n}}\n", zero = zero, l = spelled)),
+                    ("pattern-against-closure-parameter", format!("fn main() -> unit {{\n    let f = |v| match v {{ {l} => 1, _ => 0 }};\n    let _ = f({zero});\n    ()\n}}\n", zero = zero, l = spelled)),
+                    ("pattern-in-tuple", format!("fn main() -> unit {{\n    let _ = match ({zero}, true) {{ ({l}, _) => 1, _ => 0 }};\n    ()\n}}\n", zero = zero, l = spelled)),
+                    ("pattern-under-ref-get", format!("fn main() -> unit {{\n    let r = ref({zero});\n    let _ = match ref_get(r) {{ {l} => 1, _ => 0 }};\n    ()\n}}\n", zero = zero, l = spelled)),
+                    ("let-annotation", format!("fn main() -> unit {{\n    let v: {ty} = {l};\n    ()\n}}\n", ty = ty, l = spelled)),
+                    ("argument", format!("fn take(v: {ty}) -> {ty} {{ v }}\nfn main() -> unit {{\n    let _ = take({l});\n    ()\n}}\n", ty = ty, l = spelled)),
+                    ("struct-field", format!("struct W {{ v: {ty} }}\nfn main() -> unit {{\n    let _ = W {{ v: {l} }};\n    ()\n}}\n", ty = ty, l = spelled)),
+                    ("array-element", format!("fn main() -> unit {{\n    let _ = [{zero}, {l}];\n    ()\n}}\n", zero = zero, l = spelled)),
+                    ("comparison", format!("fn main() -> unit {{\n    let z: {ty} = {zero};\n    let _ = z == {l};\n    ()\n}}\n", ty = ty, zero = zero, l = spelled)),
+                ];
+                for (pos, src) in positions.iter() {
+                    runner::note_input(src);
+                    match runner::guard(|| capi::compile_single(src).map(|_| ())) {
+                        Ok(Err(_)) => {
+                            case.count("out_of_range_literals_rejected", 1);
+                            case.count("out_of_range_positions_rejected", 1);
+                        }
+                        Ok(Ok(())) => case.violation(
+                            format!("C10:out-of-range-literal-accepted:{}:{}", pos, t.name()),
+                            format!("the literal {} is outside {} but the program is accepted ({})", spelled, t.name(), pos),
+                            json!({"source": src, "position": pos}),
+                        ),
+                        Err(p) => case.inconclusive(format!("compiler panic at {} (a C04 event)", p.site)),
+                    }
+                    case.count("evaluations", 1);
+                }
+            }
         }
         // negated spelling for signed types: -v is in range iff v <= -MIN
         if t.signed() && *v > 0 {
